@@ -44,6 +44,7 @@ inductive Form where
   | eq | lt | pcmp | ordmax | letbind | hypot | atan2
   | newf | getf | from_ | sqrt | cbrt | neg
   | satadd | satsub | sum
+  | sumref | addref | subref | addaref
   | fmtargs | fmtwith | floorf
 deriving DecidableEq, Repr, Inhabited
 
@@ -55,6 +56,7 @@ def Form.ofString? : String → Option Form
   | "newf" => some .newf | "getf" => some .getf | "from" => some .from_
   | "sqrt" => some .sqrt | "cbrt" => some .cbrt | "neg" => some .neg
   | "satadd" => some .satadd | "satsub" => some .satsub | "sum" => some .sum
+  | "sumref" => some .sumref | "addref" => some .addref | "subref" => some .subref | "addaref" => some .addaref
   | "fmtargs" => some .fmtargs | "fmtwith" => some .fmtwith | "floorf" => some .floorf
   | _ => none
 
@@ -103,5 +105,7 @@ def accepts (e : TyEnv) (f : Form) (A B : QTy) (sameModule : Bool) : Bool :=
   | .satadd | .satsub => A = B && e.has A.kind mSaturating
   -- `iter::Sum for Quantity` (`D::Kind: marker::Add`): accumulating quantities of one type
   | .sum => A = B && e.has A.kind mAdd
+  -- by-reference operands (`a + &b`, `a -= &b`, `slice.iter().sum()`): no impl takes `&Quantity`
+  | .sumref | .addref | .subref | .addaref => false
 
 end Uom
